@@ -273,7 +273,8 @@ def rule_isolate(ctx):
 
 
 # 'its BLOB settings are discarded' / 'a peer that reconnects starts from default settings' are decided by the router rules
-IMPORTS = [('C05', 'C05.FORGET'), ('C05', 'C05.DEFAULT')]
+# what a dead connection leaves unfinished must not reach the others: one receive buffer per connection
+IMPORTS = [('C05', 'C05.FORGET'), ('C05', 'C05.DEFAULT'), ('C02', 'C02.OWN')]
 
 RULES = [
     ("C18.REG", rule_reg, "connection handlers register on construction; constructed only by their transport"),
